@@ -36,6 +36,14 @@ type eopt struct {
 	fixed  string
 	lo, hi []int64
 	dep    bool // from a deprecated stanza (counts down)
+
+	// typed copies for models that need values rather than strings
+	kind    string
+	pfx     netip.Prefix
+	rpref   string
+	list    []string // servers / domain names
+	num     int64    // mtu
+	str     string   // captive portal URI
 }
 
 func (o eopt) String() string {
@@ -143,6 +151,9 @@ type modelIn struct {
 }
 
 type modelOut struct {
+	hop              int
+	managed, other   bool
+	reachMs, retrMs  int64
 	hdr      string
 	lifetime int64
 	opts     []eopt
@@ -362,6 +373,9 @@ func expectRA(in modelIn) *modelOut {
 		hop, boolOf(s.Managed, false), boolOf(s.OtherConfig, false), prefOf(s.Preference),
 		reach.Milliseconds(), retrans.Milliseconds())
 
+	m.hop, m.managed, m.other = hop, boolOf(s.Managed, false), boolOf(s.OtherConfig, false)
+	m.reachMs, m.retrMs = reach.Milliseconds(), retrans.Milliseconds()
+
 	life, _ := dparse(s.DefaultLifetime, 3*maxI)
 	m.lifetime = m.field("default_lifetime", life, 0xffff)
 	if life > 0 && !in.fwd && !in.final {
@@ -400,7 +414,7 @@ func expectRA(in modelIn) *modelOut {
 			nets = []netip.Prefix{netip.MustParsePrefix(*p.Prefix)}
 		}
 		for _, n := range nets {
-			e := eopt{fixed: fmt.Sprintf("prefix %s/%d L=%t A=%t", n.Addr(), n.Bits(), boolOf(p.OnLink, true), boolOf(p.Autonomous, true))}
+			e := eopt{kind: "prefix", pfx: n, fixed: fmt.Sprintf("prefix %s/%d L=%t A=%t", n.Addr(), n.Bits(), boolOf(p.OnLink, true), boolOf(p.Autonomous, true))}
 			if p.Deprecated {
 				vlo, vhi := remaining(in.epoch, valid, in.t1, in.t2)
 				plo, phi := remaining(in.epoch, pref, in.t1, in.t2)
@@ -440,7 +454,7 @@ func expectRA(in modelIn) *modelOut {
 			nets = []netip.Prefix{netip.MustParsePrefix(*r.Prefix)}
 		}
 		for _, n := range nets {
-			e := eopt{fixed: fmt.Sprintf("route %s/%d pref=%s", n.Addr(), n.Bits(), prefOf(r.Preference))}
+			e := eopt{kind: "route", pfx: n, rpref: prefOf(r.Preference), fixed: fmt.Sprintf("route %s/%d pref=%s", n.Addr(), n.Bits(), prefOf(r.Preference))}
 			if r.Deprecated {
 				lo, hi := remaining(in.epoch, lt, in.t1, in.t2)
 				e.lo, e.hi = []int64{lo}, []int64{hi}
@@ -487,17 +501,17 @@ func expectRA(in modelIn) *modelOut {
 			servers = append(servers, a.String())
 		}
 		v := m.field(fmt.Sprintf("rdnss[%d].lifetime", i), lt, max32)
-		m.opts = append(m.opts, eopt{fixed: "rdnss " + strings.Join(servers, ","), lo: []int64{v}, hi: []int64{v}})
+		m.opts = append(m.opts, eopt{kind: "rdnss", list: servers, fixed: "rdnss " + strings.Join(servers, ","), lo: []int64{v}, hi: []int64{v}})
 	}
 
 	for i, d := range s.DNSSL {
 		lt, _ := dparse(d.Lifetime, 3*maxI)
 		v := m.field(fmt.Sprintf("dnssl[%d].lifetime", i), lt, max32)
-		m.opts = append(m.opts, eopt{fixed: "dnssl " + strings.Join(d.DomainNames, ","), lo: []int64{v}, hi: []int64{v}})
+		m.opts = append(m.opts, eopt{kind: "dnssl", list: d.DomainNames, fixed: "dnssl " + strings.Join(d.DomainNames, ","), lo: []int64{v}, hi: []int64{v}})
 	}
 
 	if s.MTU != nil && *s.MTU != 0 {
-		m.opts = append(m.opts, eopt{fixed: fmt.Sprintf("mtu %d", *s.MTU)})
+		m.opts = append(m.opts, eopt{kind: "mtu", num: int64(*s.MTU), fixed: fmt.Sprintf("mtu %d", *s.MTU)})
 	}
 
 	if boolOf(s.SourceLLA, true) && in.mac != "" {
@@ -505,7 +519,7 @@ func expectRA(in modelIn) *modelOut {
 	}
 
 	if s.CaptivePortal != nil && *s.CaptivePortal != "" {
-		m.opts = append(m.opts, eopt{fixed: fmt.Sprintf("captive-portal %q", *s.CaptivePortal)})
+		m.opts = append(m.opts, eopt{kind: "cp", str: *s.CaptivePortal, fixed: fmt.Sprintf("captive-portal %q", *s.CaptivePortal)})
 	}
 
 	for _, p := range s.PREF64 {
